@@ -607,6 +607,12 @@ package gorums
 //@   ensures[C13.a] result != nil && !result.unmarshaler.DiscardUnknown && !result.unmarshaler.Merge
 //@   ensures[C13.a] result.unmarshaler.AllowPartial && result.marshaler.AllowPartial
 
+// The codec is registered under the content subtype the manager asks gRPC for (NewRawManager's dial
+// option below): with two different names no frame would ever reach this codec.
+//@ func (Codec).Name
+//@   props C13 C10
+//@   ensures[C13.c] result == ContentSubtype
+
 //@ func (Codec).gorumsMarshal
 //@   props C13 C06 C07
 //@   nopanic C13
@@ -1926,11 +1932,13 @@ package gorums
 //@   ensures[C12.g] result.sendBuffer == 0 && !result.noConnect && result.metadata == nil && result.perNodeMD == nil && result.logger == nil && len(result.grpcDialOpts) == 0
 
 //@ func NewRawManager
-//@   props C12 C14 C10
+//@   props C12 C14 C10 C13
 //@   ghost napplied Int = 0
 //@   on call "opt"
 //@     assert[C12.g] napplied == idx - 1 && fieldaddr(arg0, m, "opts")
 //@     set napplied = napplied + 1
+//@   on call "grpc.CallContentSubtype"
+//@     assert[C13.c] arg0 == ContentSubtype
 //@   loop "for _, opt := range opts"
 //@     invariant[C12.g] napplied == idx
 //@     invariant m != nil && !wasalloc(m) && m.lookup != nil && !wasalloc(m.lookup) && len(m.nodes) == 0 && forall(id, !in(id, m.lookup))
